@@ -81,6 +81,7 @@ PLAN = {
              "finite domain enumerated completely",
     ),
     "C06": dict(
+        tlaps=dict(quick=["EditLaws"]),
         traces=[("sweep_c06", (1, 2)), ("long_c06", (1, 2)), ("c06", (400, 3000)), ("giant_c06", (None, 1))],
         codecs={"giant_c06": ["iupac", "miupac"]},
         seeds=dict(quick=1, thorough=5), seeded={"giant_c06": False},
